@@ -66,7 +66,7 @@ def corpus_cases(sub='cl'):
 
 def run(ctx, prop_files, flavours, n_quick, n_thorough, keep=lambda l: True, variants_quick=('multi_functor',),
         variants_thorough=('multi_functor', 'single_stdfunction', 'spinlock_functor'), what='callback list',
-        filter_case=None, extra_trusted=(), leaves=('callbacklist',)):
+        filter_case=None, extra_trusted=(), leaves=('callbacklist',), report_unfound=True):
     proof = vlib.coq_prove(ctx, prop_files, leaves=list(leaves))
     names = variants_thorough if ctx.tier == 'thorough' else variants_quick
     bins = build_variants(ctx, names)
@@ -102,7 +102,7 @@ def run(ctx, prop_files, flavours, n_quick, n_thorough, keep=lambda l: True, var
         if not ctx.samples and usable:
             for i in usable[ncorpus:ncorpus + 2]:
                 ctx.samples.append({'case': texts[i].strip().split('\n'), 'model_trace': model[i][:40]})
-    if not proof['ok'] and not ctx.violations:
+    if not proof['ok'] and not ctx.violations and report_unfound:
         ctx.violation('# no failing input found by %d generated cases against the spec oracle\n# broken obligation(s):\n# %s\n'
                       % (tot['compared'], '\n# '.join(proof['errors'])),
                       'proof obligation no longer checks: ' + '; '.join(proof['errors'])[:400], no_input=True)
@@ -121,6 +121,7 @@ def run(ctx, prop_files, flavours, n_quick, n_thorough, keep=lambda l: True, var
     })
     ctx.assumptions += ['sequential consistency; callbacks are deterministic functions of their activation index',
                         'no_foreign: a handle is only presented to the list that owns its nodes (cases violating it are discarded by the model and counted)']
+    return proof
 
 
 def replay(ctx, path, keep=lambda l: True):
